@@ -156,7 +156,7 @@ func (c *FnCtx) load(st *State, p *PtrVal) *Term {
 		if isStructNonOpaque(p.root) {
 			if len(path) > 0 && !path[0].isIdx {
 				hn, hs := c.fieldHeapName(p.root, path[0].field)
-				cur = ts.Select(c.heap(st, hn, hs), p.obj)
+				cur = c.hget(st, hn, hs, p.obj)
 				curT = p.root.Underlying().(*types.Struct).Field(path[0].field).Type()
 				path = path[1:]
 			} else {
@@ -164,7 +164,7 @@ func (c *FnCtx) load(st *State, p *PtrVal) *Term {
 				fs := make([]*Term, stt.NumFields())
 				for i := range fs {
 					hn, hs := c.fieldHeapName(p.root, i)
-					fs[i] = ts.Select(c.heap(st, hn, hs), p.obj)
+					fs[i] = c.hget(st, hn, hs, p.obj)
 				}
 				cur = c.eng.tc.MkStruct(p.root, fs)
 			}
@@ -175,7 +175,7 @@ func (c *FnCtx) load(st *State, p *PtrVal) *Term {
 			return p.obj
 		} else {
 			hn, hs := c.ptrHeapName(p.root)
-			cur = ts.Select(c.heap(st, hn, hs), p.obj)
+			cur = c.hget(st, hn, hs, p.obj)
 		}
 	}
 	for _, s := range path {
@@ -234,7 +234,7 @@ func (c *FnCtx) updatePath(cur *Term, curT types.Type, path []Sel, v *Term) *Ter
 
 // store writes v through pointer p.
 func (c *FnCtx) store(st *State, p *PtrVal, v *Term) {
-	ts := c.eng.ts
+	_ = c.eng.ts
 	if p.cell != nil {
 		if p.cell.detached {
 			unsupported("store into a slice/array value whose variable is not known (%s)", p.cell.name)
@@ -265,7 +265,7 @@ func (c *FnCtx) store(st *State, p *PtrVal, v *Term) {
 			c.setHeapAt(st, hn, hs, p.obj, v)
 			return
 		}
-		cur := ts.Select(c.heap(st, hn, hs), p.obj)
+		cur := c.hget(st, hn, hs, p.obj)
 		c.setHeapAt(st, hn, hs, p.obj, c.updatePath(cur, stt.Field(f).Type(), p.path[1:], v))
 		return
 	}
@@ -277,7 +277,7 @@ func (c *FnCtx) store(st *State, p *PtrVal, v *Term) {
 		c.setHeapAt(st, hn, hs, p.obj, v)
 		return
 	}
-	cur := ts.Select(c.heap(st, hn, hs), p.obj)
+	cur := c.hget(st, hn, hs, p.obj)
 	c.setHeapAt(st, hn, hs, p.obj, c.updatePath(cur, p.root, p.path, v))
 }
 
@@ -298,6 +298,7 @@ func (c *FnCtx) allocObj(st *State, hint string) *Term {
 	st.wm = nw
 	if c.writeLog != nil {
 		c.writeLog.wm = true
+		c.writeLog.alloc[o.id] = true
 	}
 	return o
 }
@@ -703,7 +704,14 @@ func (c *FnCtx) sliceOp(fr *Frame, st *State, x *ssa.Slice) {
 		fr.regs[x] = r
 		return
 	}
-	fr.regs[x] = ts.Extract(s, lo, ts.Sub(hi, lo))
+	r := ts.Extract(s, lo, ts.Sub(hi, lo))
+	if s.sort != SString && r.kind == kApp && r.op == "seq.extract" {
+		// elements of a sub-slice: nth(extract(s,lo,n), j) = nth(s, lo+j)
+		bv := ts.Bound("j", SInt)
+		ax := ts.Quant("forall", bv, ts.Implies(ts.And(ts.Le(ts.Int(0), bv), ts.Lt(bv, ts.Sub(hi, lo))), ts.Eq(ts.Nth(r, bv), ts.Nth(s, ts.Add(lo, bv)))))
+		c.addFactT(st, r, ax)
+	}
+	fr.regs[x] = r
 }
 
 // capOf: known capacity of a slice-valued register (only tracked for make() results flowing through a cell).
@@ -767,11 +775,11 @@ func (c *FnCtx) mapGet(st *State, mt types.Type, m, k *Term) (val, ok *Term) {
 	ts := c.eng.ts
 	mh := c.mapHeaps(st, mt)
 	c.mapFacts(st, mt, m)
-	dom := ts.Select(c.heap(st, mh.dom, mh.sdom), m)
-	sel := ts.Select(c.heap(st, mh.sel, mh.ssel), m)
+	dom := c.hget(st, mh.dom, mh.sdom, m)
+	sel := c.hget(st, mh.sel, mh.ssel, m)
 	ok = ts.Select(dom, k)
 	val = ts.Select(sel, k)
-	ln := ts.Select(c.heap(st, mh.ln, mh.sln), m)
+	ln := c.hget(st, mh.ln, mh.sln, m)
 	c.addFact(st, ts.Implies(ok, ts.Ge(ln, ts.Int(1))))
 	return
 }
@@ -780,19 +788,19 @@ func (c *FnCtx) mapGet(st *State, mt types.Type, m, k *Term) (val, ok *Term) {
 func (c *FnCtx) mapFacts(st *State, mt types.Type, m *Term) {
 	ts := c.eng.ts
 	mh := c.mapHeaps(st, mt)
-	ln := ts.Select(c.heap(st, mh.ln, mh.sln), m)
+	ln := c.hget(st, mh.ln, mh.sln, m)
 	c.addFact(st, ts.Ge(ln, ts.Int(0)))
-	dom := ts.Select(c.heap(st, mh.dom, mh.sdom), m)
+	dom := c.hget(st, mh.dom, mh.sdom, m)
 	empty := ts.ConstArr(ArrOf(mh.ks, SBool), ts.Bool(false))
 	c.addFact(st, ts.Implies(ts.Eq(m, ts.Int(0)), ts.And(ts.Eq(ln, ts.Int(0)), ts.Eq(dom, empty))))
 	c.addFact(st, ts.Implies(ts.Eq(ln, ts.Int(0)), ts.Eq(dom, empty)))
 }
 
 func (c *FnCtx) mapLen(st *State, mt types.Type, m *Term) *Term {
-	ts := c.eng.ts
+	_ = c.eng.ts
 	mh := c.mapHeaps(st, mt)
 	c.mapFacts(st, mt, m)
-	return ts.Select(c.heap(st, mh.ln, mh.sln), m)
+	return c.hget(st, mh.ln, mh.sln, m)
 }
 
 func (c *FnCtx) mapUpdate(fr *Frame, st *State, x *ssa.MapUpdate) {
@@ -811,9 +819,9 @@ func (c *FnCtx) mapSet(st *State, mt types.Type, m, k, v *Term) {
 	ts := c.eng.ts
 	mh := c.mapHeaps(st, mt)
 	c.mapFacts(st, mt, m)
-	dom := ts.Select(c.heap(st, mh.dom, mh.sdom), m)
-	sel := ts.Select(c.heap(st, mh.sel, mh.ssel), m)
-	ln := ts.Select(c.heap(st, mh.ln, mh.sln), m)
+	dom := c.hget(st, mh.dom, mh.sdom, m)
+	sel := c.hget(st, mh.sel, mh.ssel, m)
+	ln := c.hget(st, mh.ln, mh.sln, m)
 	had := ts.Select(dom, k)
 	c.setHeapAt(st, mh.dom, mh.sdom, m, ts.Store(dom, k, ts.Bool(true)))
 	c.setHeapAt(st, mh.sel, mh.ssel, m, ts.Store(sel, k, v))
@@ -824,8 +832,8 @@ func (c *FnCtx) mapDelete(st *State, mt types.Type, m, k *Term) {
 	ts := c.eng.ts
 	mh := c.mapHeaps(st, mt)
 	c.mapFacts(st, mt, m)
-	dom := ts.Select(c.heap(st, mh.dom, mh.sdom), m)
-	ln := ts.Select(c.heap(st, mh.ln, mh.sln), m)
+	dom := c.hget(st, mh.dom, mh.sdom, m)
+	ln := c.hget(st, mh.ln, mh.sln, m)
 	had := ts.Select(dom, k)
 	// delete on a nil map is a no-op
 	isNil := ts.Eq(m, ts.Int(0))
@@ -836,7 +844,26 @@ func (c *FnCtx) mapDelete(st *State, mt types.Type, m, k *Term) {
 func (c *FnCtx) rangeOp(fr *Frame, st *State, x *ssa.Range) {
 	if mt, ok := x.X.Type().Underlying().(*types.Map); ok {
 		_ = mt
-		fr.regs[x] = &IterVal{isMap: true, mapTyp: x.X.Type(), m: fr.val(x.X).(*Term)}
+		m := fr.val(x.X).(*Term)
+		mh := c.mapHeaps(st, x.X.Type())
+		it := &IterVal{isMap: true, mapTyp: x.X.Type(), m: m}
+		it.dom0 = c.hget(st, mh.dom, mh.sdom, m)
+		it.len0 = c.mapLen(st, x.X.Type(), m)
+		it.count = c.newCell("rangecount", types.Typ[types.Int])
+		c.setCell(st, it.count, c.eng.ts.Int(0))
+		fr.regs[x] = it
+		if refs := x.Referrers(); refs != nil {
+			for _, r := range *refs {
+				if nx, ok := r.(*ssa.Next); ok {
+					if ord, isHead := fr.loops.heads[nx.Block()]; isHead {
+						if fr.iterByLoop == nil {
+							fr.iterByLoop = map[int]*IterVal{}
+						}
+						fr.iterByLoop[ord] = it
+					}
+				}
+			}
+		}
 		return
 	}
 	// string range: position cell
@@ -859,6 +886,23 @@ func (c *FnCtx) nextOp(fr *Frame, st *State, x *ssa.Next) {
 		v, in := c.mapGet(st, it.mapTyp, it.m, k)
 		c.addFact(st, ts.Implies(ok, in))
 		c.addFact(st, ts.Implies(ts.Eq(c.mapLen(st, it.mapTyp, it.m), ts.Int(0)), ts.Not(ok)))
+		// ghost count of delivered entries: while the map's key set is unchanged since the range started, an
+		// iteration delivers each entry exactly once: ok => count < len, !ok => count == len
+		cnt := c.getCell(st, it.count)
+		mh := c.mapHeaps(st, it.mapTyp)
+		c.addFact(st, ts.Ge(cnt, ts.Int(0)))
+		if c.hget(st, mh.dom, mh.sdom, it.m) == it.dom0 {
+			c.addFact(st, ts.Implies(ok, ts.Lt(cnt, it.len0)))
+			c.addFact(st, ts.Implies(ts.Not(ok), ts.Eq(cnt, it.len0)))
+			c.addFact(st, ts.Le(cnt, it.len0))
+		}
+		c.setCell(st, it.count, ts.Ite(ok, ts.Add(cnt, ts.Int(1)), cnt))
+		if ord, isHead := fr.loops.heads[x.Block()]; isHead {
+			if fr.iterByLoop == nil {
+				fr.iterByLoop = map[int]*IterVal{}
+			}
+			fr.iterByLoop[ord] = it
+		}
 		fr.regs[x] = Tuple{ok, k, v}
 		c.lastNext = &nextInfo{iter: it, ok: ok, key: k, val: v}
 		return
